@@ -38,7 +38,11 @@ MkMesh(topo, idx, attrs, mats) ==
     [topo |-> topo, idx |-> idx, attrs |-> attrs, mats |-> mats, exact |-> TRUE, bx |-> TRUE, fp |-> <<>>]
 
 \* the part of a value the contract talks about (fingerprint dropped)
-Core(m) == [topo |-> m.topo, idx |-> m.idx, attrs |-> m.attrs, mats |-> m.mats]
+\* material identities: m % 1000 names the material value, m \div 1000 > 0 marks a COPY (another pointer to an equal
+\* value, as SetMaterial / SplitOnUniqueMaterials create); which copy number the code hands out is not predictable,
+\* so results are compared on the value name while the split itself partitions by full identity (= by pointer)
+NormMats(mats) == [i \in DOMAIN mats |-> [n |-> mats[i].n, m |-> mats[i].m % 1000]]
+Core(m) == [topo |-> m.topo, idx |-> m.idx, attrs |-> m.attrs, mats |-> NormMats(m.mats)]
 
 IndexSize(topo) ==
     CASE topo = "triangle" -> 3
@@ -364,7 +368,7 @@ LaplacianOk(m, id, iters, lam2, data) ==
 (* Comparison classes (C03).                                               *)
 (***************************************************************************)
 EqExact(res, exp) == res.exact /\ Core(res) = Core(exp)
-EqCorners(res, exp) == res.exact /\ CornerView(res) = CornerView(exp) /\ res.mats = exp.mats
+EqCorners(res, exp) == res.exact /\ CornerView(res) = CornerView(exp) /\ NormMats(res.mats) = NormMats(exp.mats)
 EqCornersNoMats(res, exp) == res.exact /\ CornerView(res) = CornerView(exp)
 
 (***************************************************************************)
